@@ -13,7 +13,7 @@ From Cffi Require Import C37.Steps.
 
 Definition inline_close : list cstep := [ CallCloseLib; ClearDict ].
 Definition backend_close_lib : list cstep := [ DlClose; SetHandleNull ].
-Definition ool_close : list cstep := [ SetHandleNull; DlClose ].
+Definition ool_close : list cstep := [ SetHandleNull; ClearDict; DlClose ].
 Definition ool_fetch_checks_first : bool := true.
 Definition inline_checks_first : bool := true.
 Definition backend_close_guard_auto : bool := false.
